@@ -69,7 +69,8 @@ def run(pid, tier, seed, replay=None):
             total_eval += sum(apis.values())
             ck.cov.setdefault("driver_runs", []).append({"variant": v, "wall_s": round(wall, 1), "cases": s["cases"],
                                                          "evaluations": s["evaluations"], "per_api": apis,
-                                                         "mismatch_classes_all_properties": s.get("mismatch_classes")})
+                                                         "mismatch_classes_all_properties": s.get("mismatch_classes"),
+                                                         "comparisons_skipped_magnitude_above_2^120": s.get("skipped_float_overflow")})
             for r in mine:
                 sig = {"class": r["class"], "kind": r["kind"], "api": r["api"], "variant": v}
                 ck.violation(sig, r)
